@@ -115,6 +115,60 @@ def build_shells(shells, convs, types=None):
     return out
 
 
+class _FakeMolBasis:
+    def __init__(self, shells, conventions):
+        self.shells, self.conventions, self.primitive_normalization = shells, conventions, "L2"
+
+
+class _FakeShell:
+    def __init__(self, icenter, l, kind, exps, coeffs):
+        self.icenter, self.angmoms, self.kinds, self.exponents, self.coeffs, self.ncon = icenter, [l], [kind], exps, coeffs, 1
+
+
+def build_via_wrappers(shells, types, which, rng):
+    """The real IODataShell / PyscfShell classes, obtained by driving from_iodata / from_pyscf with duck-typed
+    IOData / Mole objects (neither package is installed; a stub iodata.convert module provides the identity
+    convert_to_segmented). Only the first coefficient column of every shell is used (both wrappers are segmented)."""
+    import sys
+    import types as _types
+
+    from gbasis.wrappers import from_iodata, from_pyscf
+    from vmon.ref import gto
+
+    if which == "pyscf":
+        class Mole:  # noqa: D401 - from_pyscf checks the class name
+            pass
+
+        mol = Mole()
+        mol.cart = all(t == "c" for t in types)
+        mol._atom = [("X%d" % i, tuple(s["c"])) for i, s in enumerate(shells)]
+        mol._basis = {"X%d" % i: [[s["l"]] + [[e, row[0]] for e, row in zip(s["e"], s["k"])]] for i, s in enumerate(shells)}
+        return list(from_pyscf(mol)), (["c"] * len(shells) if mol.cart else ["p"] * len(shells))
+    if "iodata" not in sys.modules:
+        pkg = _types.ModuleType("iodata")
+        conv = _types.ModuleType("iodata.convert")
+        conv.convert_to_segmented = lambda obasis: obasis
+        pkg.convert = conv
+        sys.modules["iodata"], sys.modules["iodata.convert"] = pkg, conv
+    conventions = {}
+    for l in range(0, 8):
+        order = gto.cart_components(l)
+        perm = [int(i) for i in rng.permutation(len(order))]
+        conventions[(l, "c")] = ["x" * order[i][0] + "y" * order[i][1] + "z" * order[i][2] if l else "1" for i in perm]
+        base = default_sph(l)
+        sp = rng.permutation(2 * l + 1)
+        conventions[(l, "p")] = [("-" if rng.random() < 0.5 else "") + base[i] for i in sp]
+
+    class IOData:  # noqa: D401 - from_iodata checks the class name
+        pass
+
+    mol = IOData()
+    mol.atcoords = np.array([s["c"] for s in shells], dtype=float)
+    fs = [_FakeShell(i, s["l"], t, np.array(s["e"], float), np.array([[row[0]] for row in s["k"]], float)) for i, (s, t) in enumerate(zip(shells, types))]
+    mol.obasis = _FakeMolBasis(fs, conventions)
+    return list(from_iodata(mol)), list(types)
+
+
 def shell_matrix(sh, t):
     """matrix from the shell's Cartesian functions (as the shell orders them) to its functions of type t"""
     from gbasis.spherical import generate_transformation
@@ -201,7 +255,7 @@ def gen_cases(tier, seed):
         if "p" not in tp:
             tp[0] = "p"
         shells, classes = bases.rand_basis(rng, ls, types=tp, scale=1.0, emax_fn=lambda l: 20.0, Kmax=2, Mmax=3)
-        conv = ["default", "random", "horton", "orca-sign", "random"][i % 5]
+        conv = ["default", "random", "horton", "orca-sign", "random", "iodata", "pyscf"][i % 7]
         cases.append({"kind": "real", "shells": shells, "conv": conv, "eri": heavy or sum(bases.nfunc(s, "c") for s in shells) <= 14, "seed": [seed, i],
                       "classes": classes + ["real", "conv:" + conv, "types:" + "".join(tp)],
                       "cost": 30 + (sum(bases.nfunc(s, "c") for s in shells) ** 4 / 30 if heavy else 50)})
@@ -404,9 +458,18 @@ def check_real(shells, convs, with_eri, rng, viols, errs, tag):
     types = [s["t"] for s in shells]
     n = 0
     Q, pts, q = real_quantities(with_eri)
-    cart = build_shells(shells, convs, ["c"] * len(shells))
-    typed = build_shells(shells, convs, types)
-    dflt = build_shells(shells, None, types)
+    if tag.endswith("iodata") or tag.endswith("pyscf"):
+        which = "iodata" if tag.endswith("iodata") else "pyscf"
+        st = rng.bit_generator.state
+        cart, _ = build_via_wrappers(shells, ["c"] * len(shells), which, rng)
+        rng.bit_generator.state = st  # same random conventions for both builds
+        typed, types = build_via_wrappers(shells, types, which, rng)
+        dflt = typed
+        convs = None
+    else:
+        cart = build_shells(shells, convs, ["c"] * len(shells))
+        typed = build_shells(shells, convs, types)
+        dflt = build_shells(shells, None, types)
     Cs = [shell_matrix(sh, t) for sh, t in zip(typed, types)]
     Rs = [relation_to_default(sh, t) for sh, t in zip(typed, types)]
     nf = sum(c.shape[0] for c in Cs)
@@ -507,7 +570,7 @@ def run_case(case):
     elif kind == "real":
         rng = bases.rng_for("C09", "real", *case["seed"])
         shells = case["shells"]
-        convs = [convention(rng, s["l"], case["conv"] if (case["conv"] != "horton" or True) else "default") for s in shells]
+        convs = [convention(rng, s["l"], case["conv"] if case["conv"] not in ("iodata", "pyscf") else "default") for s in shells]
         evals += check_real(shells, convs, case["eri"], rng, viols, errs, "conventions: " + case["conv"])
         nontrivial = any(s["t"] == "p" and s["l"] >= 2 for s in shells) or case["conv"] != "default"
     else:
